@@ -1,5 +1,173 @@
-(* STUB: Impl model of hest.rs -- to be written *)
-From Coq Require Import NArith List.
-From ACPI Require Import Lib.Bytes Lib.Sx Lib.Machine Impl.Checksum Impl.Table Impl.Fields Impl.Run.
+(* Impl model of hest.rs (uses gas.rs).  Case vocabulary: see Spec/HestS.v.
+   HEST is an instance of Impl/Table.v (kind KHest): `add_structure::<T>(t)` calls `update_header(t.as_bytes())`, i.e. the
+   length it adds is `data.len()` and the bytes reach the checksum through `checksum.append(data)`.
+   The two stand-alone structures GenericErrorStatus / GenericErrorData (never added to a HEST) are modelled as two extra
+   operation kinds (20, 21) that build the structure, serialise it alone and make *it* the thing the following
+   observations show (until the next add_structure): see [hstate] below. *)
+From Coq Require Import NArith List Bool.
+From ACPI Require Import Lib.Bytes Lib.Sx Lib.Machine Impl.Checksum Impl.Table Impl.Fields Impl.Run Impl.Madt Impl.Gas.
 Import ListNotations.
-Definition hest_case (md : mode) (c : sx) : list ev := [EvPanic].
+Open Scope N_scope.
+
+(* ---- the three PCIe AER source structures (packed; field order = declaration order) ----
+   common part, indices: 0 type 1 source_id 2 _reserved0 3 flags 4 enabled 5 num_records 6 max_sections 7 bus 8 device
+   9 function 10 device_control 11 _reserved1 12 uncorrectable_error_mask 13 uncorrectable_error_severity
+   14 correctable_error_mask 15 aer_cap_ctrl; then
+   root port: 16 root_error_command
+   bridge:    16 secondary_uncorrectable_error_mask 17 secondary_uncorrectable_error_severity 18 secondary_aer_cap_ctrl *)
+Definition aer_common (ty flags bus dev fn : N) : flds :=
+  [F 2 ty; F 2 0; F 2 0; F 1 flags; F 1 0; F 4 0; F 4 0; F 4 bus; F 2 dev; F 2 fn; F 2 0; F 2 0; F 4 0; F 4 0; F 4 0; F 4 0].
+
+Definition aer_tail (ty : N) : flds :=
+  match ty with 6 => [F 4 0] | 8 => [F 4 0; F 4 0; F 4 0] | _ => [] end.
+
+(* (0) = T::new_global() ; (1 ff bus dev fn) = T::new_root_port / new_bridge (ff, PciDevice::new(bus, dev, fn)) *)
+Definition aer_new (ty : N) (c : sx) : option flds :=
+  match c with
+  | SL [SA 0] => Some (aer_common ty 2 0 0 0 ++ aer_tail ty)                    (* FLAG_GLOBAL = 1 << 1 *)
+  | SL [SA 1; SA ff; SA bus; SA dev; SA fn] =>
+      do _ <- pci_ok (cast U8 dev) (cast U8 fn);                              (* PciDevice::new asserts *)
+      Some (aer_common ty ff (cast U8 bus) (cast U8 dev) (cast U8 fn) ++ aer_tail ty)
+  | _ => None
+  end.
+
+(* mutable_setter!: self.field = v *)
+Definition aer_setter (ty : N) (f : flds) (o : sx) : option flds :=
+  match o with
+  | SL [SA 1; SA v] => Some (fset f 5 v)        (* num_records *)
+  | SL [SA 2; SA v] => Some (fset f 6 v)        (* max_sections *)
+  | SL [SA 3; SA v] => Some (fset f 10 v)       (* device_control *)
+  | SL [SA 4; SA v] => Some (fset f 12 v)       (* uncorrectable_error_mask *)
+  | SL [SA 5; SA v] => Some (fset f 13 v)       (* uncorrectable_error_severity *)
+  | SL [SA 6; SA v] => Some (fset f 14 v)       (* correctable_error_mask *)
+  | SL [SA 7; SA v] => Some (fset f 15 v)       (* aer_cap_ctrl *)
+  | SL [SA 8; SA v] =>                          (* root_error_command | secondary_uncorrectable_error_mask *)
+      match ty with 6 | 8 => Some (fset f 16 v) | _ => None end
+  | SL [SA 9; SA v] => match ty with 8 => Some (fset f 17 v) | _ => None end   (* secondary_uncorrectable_error_severity *)
+  | SL [SA 10; SA v] => match ty with 8 => Some (fset f 18 v) | _ => None end  (* secondary_aer_cap_ctrl *)
+  | _ => None
+  end.
+
+(* ---- NotificationStructure: 0 type 1 length 2 conf_write_en 3 poll_interval_ms 4 vector 5 polling_threshold_value
+        6 polling_threshold_window_ms 7 error_threshold_value 8 error_threshold_window_ms ---- *)
+Definition notif_new (ty : N) : flds := [F 1 ty; F 1 28; F 2 0; F 4 0; F 4 0; F 4 0; F 4 0; F 4 0; F 4 0].
+Definition notif_setter (f : flds) (o : sx) : option flds :=
+  match o with
+  | SL [SA 1; SA v] => Some (fset f 2 v)
+  | SL [SA 2; SA v] => Some (fset f 3 v)
+  | SL [SA 3; SA v] => Some (fset f 4 v)
+  | SL [SA 4; SA v] => Some (fset f 5 v)
+  | SL [SA 5; SA v] => Some (fset f 6 v)
+  | SL [SA 6; SA v] => Some (fset f 7 v)
+  | SL [SA 7; SA v] => Some (fset f 8 v)
+  | _ => None
+  end.
+
+(* ---- GenericHardwareSource (type 9) / GenericHardwareSourceV2 (type 10)
+   indices: 0 type 1 source_id 2 related_source_id 3 _flags 4 enabled 5 num_records 6 max_sections 7 max_raw_length
+   8..12 error_status_address (GAS) 13..21 notification 22 error_status_block_len;
+   V2: 23..27 read_ack_register (GAS) 28 read_ack_preserve 29 read_ack_write ---- *)
+Definition ghes_new (ty source_id enabled : N) : flds :=
+  [F 2 ty; F 2 source_id; F 2 0xffff; F 1 0; F 1 enabled; F 4 0; F 4 0; F 4 0] ++ gas_default
+  ++ notif_new 0                                   (* NotificationStructure::new(NotificationType::default()) *)
+  ++ [F 4 0]
+  ++ match ty with 10 => gas_default ++ [F 8 0; F 8 0] | _ => [] end.
+
+Definition ghes_setter (ty : N) (f : flds) (o : sx) : option flds :=
+  match o with
+  | SL [SA 1; SA v] => Some (fset f 5 v)        (* num_records *)
+  | SL [SA 2; SA v] => Some (fset f 6 v)        (* max_sections *)
+  | SL [SA 3; SA v] => Some (fset f 7 v)        (* max_raw_length *)
+  | SL [SA 4; g] => do gv <- gas_of_sx g; Some (fset_seq f 8 (fvals gv))       (* error_status_address *)
+  | SL [SA 5; SA nty; SL nsetters] =>                                          (* notification(NotificationStructure::new(t)...) *)
+      do n <- apply_setters notif_setter (notif_new nty) nsetters; Some (fset_seq f 13 (fvals n))
+  | SL [SA 6; SA v] => Some (fset f 22 v)       (* error_status_block_len *)
+  | SL [SA 7; g] => match ty with 10 => do gv <- gas_of_sx g; Some (fset_seq f 23 (fvals gv)) | _ => None end
+  | SL [SA 8; SA v] => match ty with 10 => Some (fset f 28 v) | _ => None end  (* read_ack_preserve *)
+  | SL [SA 9; SA v] => match ty with 10 => Some (fset f 29 v) | _ => None end  (* read_ack_write *)
+  | _ => None
+  end.
+
+(* ---- the table ---- *)
+Definition hest_new (c : sx) : option tbl :=
+  match c with
+  | SL [o; t; r] =>
+      do h <- sx_hdr [72; 69; 83; 84] 1 o t r;          (* "HEST", revision 1 *)
+      Some (tbl_new KHest h [])
+  | _ => None
+  end.
+
+Definition hest_entry (o : sx) : option flds :=
+  match o with
+  | SL [SA 1; c; SL st] => do f <- aer_new 6 c; apply_setters (aer_setter 6) f st      (* PcieAerRootPort *)
+  | SL [SA 2; c; SL st] => do f <- aer_new 7 c; apply_setters (aer_setter 7) f st      (* PcieAerDevice *)
+  | SL [SA 3; c; SL st] => do f <- aer_new 8 c; apply_setters (aer_setter 8) f st      (* PcieAerBridge *)
+  | SL [SA 4; SA id; SA en; SL st] => apply_setters (ghes_setter 9) (ghes_new 9 id en) st
+  | SL [SA 5; SA id; SA en; SL st] => apply_setters (ghes_setter 10) (ghes_new 10 id en) st
+  | _ => None
+  end.
+
+(* add_structure(t): update_header(t.as_bytes()); structures.push(Box::new(t)) *)
+Definition hest_addition (s : tbl) (o : sx) : option addition :=
+  do f <- hest_entry o;
+  let bytes := ser_flds f in
+  Some {| a_style := SumAppend; a_claimed := N.of_nat (length bytes); a_bytes := bytes; a_returns := false;
+          a_flag := t_flag s |}.
+
+(* ---- stand-alone structures ---- *)
+(* GenericErrorStatus::new(correctable_count: u32, uncorrectable_count: u32, severity) and its to_aml_bytes
+   (dword status, raw_data_offset, raw_data_length, generic_data_length, severity; no entries can be added) *)
+Definition ges_bytes (cc uc sev : N) : list N :=
+  let cc := cast U32 cc in let uc := cast U32 uc in
+  let s1 := if cc =? 1 then 2 else if 1 <? cc then 8 else 0 in
+  let s2 := if uc =? 1 then 1 else if 1 <? uc then 4 else 0 in
+  d4 (N.lor s1 s2) ++ d4 0 ++ d4 0 ++ d4 0 ++ d4 sev.
+
+(* GenericErrorData: pub fields, Default + new(severity); to_aml_bytes = word section_type, dword severity, word revision,
+   byte validation, byte flags, dword error_data_length, vec fru_id, vec fru_text, vec timestamp (no data added).
+   indices: 0 section_type 1 severity 2 revision 3 validation 4 flags 5 error_data_length 6..21 fru_id 22..41 fru_text
+   42..49 timestamp *)
+Definition ged_new (sev : N) : flds :=
+  [F 2 0; F 4 sev; F 2 0; F 1 0; F 1 0; F 4 0] ++ fbytes (repeatN 0 16) ++ fbytes (repeatN 0 20) ++ fbytes (repeatN 0 8).
+
+(* field assignments d.field = v *)
+Definition ged_assign (f : flds) (o : sx) : option flds :=
+  match o with
+  | SL [SA 1; SA v] => Some (fset f 0 v)
+  | SL [SA 2; SA v] => Some (fset f 1 v)
+  | SL [SA 3; SA v] => Some (fset f 2 v)
+  | SL [SA 4; SA v] => Some (fset f 3 v)
+  | SL [SA 5; SA v] => Some (fset f 4 v)
+  | SL [SA 6; SA v] => Some (fset f 5 v)
+  | SL [SA 7; b] => do bs <- sx_arr 16 b; Some (fset_seq f 6 bs)
+  | SL [SA 8; b] => do bs <- sx_arr 20 b; Some (fset_seq f 22 bs)
+  | SL [SA 9; b] => do bs <- sx_arr 8 b; Some (fset_seq f 42 bs)
+  | _ => None
+  end.
+
+Definition is_alone (o : sx) : bool :=
+  match o with SL (SA 20 :: _) | SL (SA 21 :: _) => true | _ => false end.
+
+Definition hest_alone (o : sx) : option (list N) :=
+  match o with
+  | SL [SA 20; SL [SA cc; SA uc]; SA sev] => Some (ges_bytes cc uc sev)
+  | SL [SA 21; SA sev; SL assigns] => do f <- apply_setters ged_assign (ged_new sev) assigns; Some (ser_flds f)
+  | _ => None
+  end.
+
+(* state of a component-21 history: the HEST under construction, and the serialisation of the stand-alone structure
+   built by the last operation if that operation was (20 ...) / (21 ...) *)
+Record hstate := { hs_tbl : tbl; hs_alone : option (list N) }.
+
+Definition hest_image (s : hstate) : option (list N) :=
+  Some (match hs_alone s with Some b => b | None => tbl_image (hs_tbl s) end).
+
+Definition hest_step (md : mode) (s : hstate) (o : sx) : option (hstate * list ev) :=
+  if is_alone o then
+    do b <- hest_alone o; Some ({| hs_tbl := hs_tbl s; hs_alone := Some b |}, [EvNum 0])
+  else
+    do r <- add_step hest_addition md (hs_tbl s) o; Some ({| hs_tbl := fst r; hs_alone := None |}, snd r).
+
+Definition hest_case (md : mode) (c : sx) : list ev :=
+  run_history hest_image (hest_step md)
+    (fun c => option_map (fun t => {| hs_tbl := t; hs_alone := None |}) (hest_new c)) c.
